@@ -47,9 +47,14 @@ def population_correction(h):
     if kind == "raise":
         return h.fail("no_raise", f"raised {c}")
     cs = h.ctx.__dict__.get("_cumsums", [])
+    ex0 = [e for e in h.ctx.__dict__.get("_extrema", []) if e["root"] is root]
+    if len(cs) != 1 or len(ex0) != 1:
+        # the body is not of the shape this contract's ghost argument follows (one running total of a sorted frame, one minimum
+        # over its rows): outside the verified subset -- the scenario replay decides
+        from pyvc.values import Undecided
+
+        raise Undecided(f"_compute_population_correction does not compute one running total and one minimum ({len(cs)} / {len(ex0)})")
     h.ensures("one_sorted_cumulative_sum", len(cs) == 1)
-    if len(cs) != 1:
-        return
     m = cs[0]
     Wle, total = m["Wle"], m["total"]
     # ghost instantiation of the prefix-sum / minimum facts at the rows the argument talks about
